@@ -201,6 +201,26 @@ def manyfield_shapes():
     return out
 
 
+READ_KINDS = ("Read", "ReadExpect", "OptRead", "ReadH")
+
+
+def readonly_shapes():
+    """read-only shapes, always present and always stormed (multi-threaded concurrent fetches)"""
+    return [
+        leaf("Read", 1), leaf("OptRead", 1), leaf("ReadExpect", 1), leaf("ReadH", 1, 2),
+        compose("tuple", [leaf("Read", 1), leaf("OptRead", 1), leaf("ReadExpect", 2)]),
+        compose("named", [leaf("Read", 1), leaf("Phantom"), leaf("ReadExpect", 1), leaf("OptRead", 2)]),
+        compose("tstruct", [compose("tuple", [leaf("ReadH", 1, 2), leaf("Read", 2)]), leaf("Unit"), leaf("OptRead", 1)]),
+        compose("tuple", [compose("named", [leaf("Read", 1)]), compose("tuple", [leaf("ReadExpect", 1), leaf("Read", 3)]),
+                          leaf("OptRead", 3)]),
+    ]
+
+
+def is_readonly(tb):
+    ks = [x["kind"] for x in tb if x["t"] == "leaf" and x["kind"] not in NO_KINDS]
+    return bool(ks) and all(k in READ_KINDS for k in ks)
+
+
 def rand_leaf(rng, nres, kinds=ALL_KINDS):
     k = rng.choice(kinds)
     r = rng.randint(1, nres)
@@ -491,7 +511,7 @@ def unit_rs(out_dir, bin_name):
 
 
 def generate(mc_files, arity_files, seed, n_mc, n_arity, n_rot, n_deep, n_wide, out_dir, desc_dir, units=1,
-             extra_mc=2, extra_gen=6, n_twin=0):
+             extra_mc=2, extra_gen=6, n_twin=0, n_storm=0):
     """-> (stats, [unit...]); unit = {"bin", "rs", "desc", "types", "hash"}.  The cases are dealt
     round-robin to `units` compilation units (bins zoo, zoo1, ..); unused units get the placeholder."""
     rng = random.Random(seed)
@@ -560,6 +580,9 @@ def generate(mc_files, arity_files, seed, n_mc, n_arity, n_rot, n_deep, n_wide, 
     # always: wide nested shapes whose flattened reads / writes exceed 32 ids
     for tb in overflow_shapes():
         add("gen-overflow", tb, nres_of(tb), [], extra_gen)
+    # always: small read-only shapes (stormed)
+    for tb in readonly_shapes():
+        add("gen-readonly", tb, nres_of(tb), [], extra_gen)
     # always: derived structs with more than 26 fields
     for tb in manyfield_shapes():
         add("gen-manyfields", tb, nres_of(tb), [], extra_gen)
@@ -574,6 +597,21 @@ def generate(mc_files, arity_files, seed, n_mc, n_arity, n_rot, n_deep, n_wide, 
     for _ in range(n_wide):
         tb = wide_shape(rng)
         add("gen-wide", tb, nres_of(tb), [], extra_gen)
+
+    # read-only storm: the dedicated shapes plus a spread of the other read-only shapes (by root kind)
+    for c in cases:
+        c["storm"] = c["origin"] == "gen-readonly"
+    groups = {}
+    for c in cases:
+        if not c["storm"] and is_readonly(c["shape"]) and c["nres"] <= NCONC:
+            root = c["shape"][0]
+            groups.setdefault((root["t"], root["kind"], any(x["kind"] == "ReadH" for x in c["shape"])), []).append(c)
+    left = n_storm
+    while left > 0 and any(groups.values()):
+        for k in sorted(groups):
+            if groups[k] and left > 0:
+                groups[k].pop(rng.randrange(len(groups[k])))["storm"] = True
+                left -= 1
 
     # twins: one generic type instantiated from two sibling blocks with same-named local resource types
     twins = []
@@ -601,7 +639,7 @@ def generate(mc_files, arity_files, seed, n_mc, n_arity, n_rot, n_deep, n_wide, 
         if not mine and not mytwins:
             placeholder(rs)
             continue
-        dcases = [{k: c[k] for k in ("id", "origin", "ty", "shape", "nres", "conc", "runs", "extra", "pdef") if k in c}
+        dcases = [{k: c[k] for k in ("id", "origin", "ty", "shape", "nres", "conc", "runs", "extra", "pdef", "storm") if k in c}
                   for c in mine + [h for pr in mytwins for h in pr]]
         h = hashlib.sha1(json.dumps(dcases, sort_keys=True).encode()).hexdigest()[:16]
         dpath = "%s/desc_%s.json" % (desc_dir, bin_name)
@@ -639,6 +677,7 @@ def generate(mc_files, arity_files, seed, n_mc, n_arity, n_rot, n_deep, n_wide, 
              "structs_without_lifetime_turned_into_tuples": sum(c["normalised"] for c in cases),
              "members_spelled_as_bare_type_parameter": sum(c["nbare"] for c in cases),
              "dynamic_id_sibling_cells": nsiblings[0],
+             "read_only_shapes_stormed": sum(1 for c in cases if c.get("storm")),
              "resources_with_panicking_default": npdef[0],
              "max_struct_fields": max([len(x["kids"]) for c in cases for x in c["shape"] if x["t"] in ("named", "tstruct")] + [0]),
              "max_flattened_reads": max([sum(1 for x in c["shape"] if x["kind"] in ("Read", "ReadExpect", "OptRead", "ReadH")) for c in cases] + [0]),
